@@ -12,7 +12,7 @@
    functions in <name>_row; the theorems relate the two by explicit hypotheses
    ("Lin X = map lin_r X": the block acts on each row separately).
    Dropout is the identity (evaluation mode).  Scalars are abstract (Lib/Tensor.v). *)
-From Coq Require Import List Arith Bool.
+From Coq Require Import List Arith Bool ZArith.
 From PF Require Import Lib.Chunks Lib.Tensor.
 Import ListNotations.
 
@@ -58,6 +58,10 @@ Section Layers.
       let num_chunks := cdiv (length X) vbs in
       concat (map Bn (torch_chunk num_chunks X))
     else Bn X.
+
+  (* the batches self.bn is called with, as row counts (observable on the real module with a forward hook) *)
+  Definition ghost_call_sizes (vbs n : nat) : list nat :=
+    if 0 <? n then map (@length nat) (torch_chunk (cdiv n vbs) (seq 0 n)) else [0].
 
   (* ================================================================== *)
   (* MLP  (models/mlp.py)                                                *)
@@ -348,6 +352,21 @@ Section Layers.
   Definition diam_mask (num_cols : nat) : mat :=
     let seq_ids := seq 0 num_cols in
     map (fun sj => map (fun sl => if sl <=? sj then o0 O else onegbig O) seq_ids) seq_ids.
+
+  (* The comparison behind the mask, over the INTEGER column ids held in the buffer `seq_ids`:
+     query column j may attend to key column l  iff  seq_ids[l] <= seq_ids[j]. *)
+  Definition mask_allowed (ids : list Z) (j l : nat) : bool :=
+    match nth_error ids l, nth_error ids j with
+    | Some a, Some b => (a <=? b)%Z
+    | _, _ => false
+    end.
+  (* torch.arange(num_cols): int64, exact for every width *)
+  Definition ids_int64 (n : nat) : list Z := map Z.of_nat (seq 0 n).
+  (* what an 8-bit signed buffer would hold: two's-complement wrap *)
+  Definition wrap8 (z : Z) : Z := ((z + 128) mod 256 - 128)%Z.
+  Definition ids_int8 (n : nat) : list Z := map (fun i => wrap8 (Z.of_nat i)) (seq 0 n).
+  (* output columns that change when input column c is perturbed = the queries allowed to attend to c *)
+  Definition causal_row (ids : list Z) (n c : nat) : list bool := map (fun j => mask_allowed ids j c) (seq 0 n).
 
   (* scaled_attention_score = (attention_score + masks) / math.sqrt(d_heads) *)
   Definition diam_post (num_cols : nat) (s : mat) : mat :=
